@@ -55,6 +55,43 @@ def ob_entry(has_config):
     return f
 
 
+def ob_after_rejected(kind):
+    """an invalid call is rejected *and leaves nothing behind*: the next valid call on the same instance (arguments
+    omitted or given) returns a complete result"""
+    def f():
+        st = stubs.Stream("np")
+        with env(stubs.numpy_stream_layer(lambda: st), stubs.pool_layer()):
+            cfg = M.BaseOptimizationConfig(population_size=2, fitness_error=None, max_cycles=1)
+            t = make_task([cont()], lambda x, i: float(i))
+            opt = Scripted(cfg if kind != "no-config" else None)
+            try:
+                if kind == "bad-workers":
+                    opt.optimize(t, mode="thread", workers=sym.integer("workers", -3, 0))
+                elif kind == "bad-mode":
+                    opt.optimize(t, mode=sym.choice("mode", ["parallel", "", "SERIAL"]), workers=3)
+                elif kind == "bad-weights":
+                    opt.optimize(make_task([cont()], lambda x, i: [0.0, 0.0], weights=[1.0]), mode="process", workers=2)
+                else:
+                    opt.optimize(t)
+                return Failure("invalid-call-accepted", kind=kind)
+            except ValueError:
+                pass
+            if kind == "no-config":
+                opt._config = cfg
+            follow = sym.choice("follow-up", ["omitted", "serial", "thread"])
+            kw = {} if follow == "omitted" else {"mode": follow, "workers": 2}
+            try:
+                res = opt.optimize(t, **kw)
+            except Exception as e:
+                return Failure("valid-call-after-a-rejected-call-fails", kind=kind, follow_up=follow,
+                               error=f"{type(e).__name__}: {str(e)[:160]}")
+            # (private fields are not compared: a worker count left behind by a rejected call changes scheduling only)
+            if res.best_solution is None or len(res.evolution) != 2:
+                return Failure("incomplete-result-after-a-rejected-call")
+            return OK
+    return f
+
+
 def ob_weights(k):
     def f():
         with env():
@@ -156,6 +193,8 @@ def obligations(tier):
     obs = [Ob("entry[config]", ob_entry(True), 600), Ob("entry[no-config]", ob_entry(False), 300)]
     for k in (1, 2, 3):
         obs.append(Ob(f"weights[k={k}]", ob_weights(k), 60))
+    for kind in ("bad-workers", "bad-mode", "bad-weights", "no-config"):
+        obs.append(Ob(f"after_rejected[{kind}]", ob_after_rejected(kind), 300))
     for n_obj, n_w in ((0, 0), (0, 2), (1, 0), (1, 2), (2, 0), (2, 1), (2, 3), (3, 2)):
         obs.append(Ob(f"count_mismatch[obj={n_obj},w={n_w}]", ob_count_mismatch(n_obj, n_w), 120))
     lists = [n for n in var_lists(tier) if no_mixed_perm(n) and len(n) <= 2]
